@@ -14,18 +14,19 @@ import (
 
 // A Node is one block of a generated fork tree.
 type Node struct {
-	Idx      int // small integer name (0 = genesis), order of creation
-	Block    types.Block
-	ID       types.BlockID
-	Parent   *Node
-	Height   uint64
-	Kinds    []string // transaction kinds carried
-	Corrupt  string   // "" for an honestly mined block, else the corrupted field
-	HdrOK    bool     // ValidateOrphan against the parent's header state, timestamp not in the future
-	Future   bool     // timestamp too far in the future (ErrFutureBlock)
-	BodyOK   bool     // accepted by a fresh linear node on top of its ancestry (implies all ancestors are)
-	State    consensus.State // header-derived state after the block (work, difficulty); valid when HdrOK
-	Children []*Node
+	Idx       int // small integer name (0 = genesis), order of creation
+	Block     types.Block
+	ID        types.BlockID
+	Parent    *Node
+	Height    uint64
+	Kinds     []string        // transaction kinds carried
+	Corrupt   string          // "" for an honestly mined block, else the corrupted field
+	HdrOK     bool            // ValidateOrphan against the parent's header state, timestamp not in the future
+	Future    bool            // timestamp too far in the future (ErrFutureBlock)
+	BodyOK    bool            // accepted by a fresh linear node on top of its ancestry (implies all ancestors are)
+	State     consensus.State // state after the block as far as headers go (work, difficulty); valid when HdrOK
+	FullState consensus.State // full state after the block; valid when the whole ancestry is valid
+	Children  []*Node
 }
 
 // A Tree is a fork tree of real blocks over one network.
@@ -84,11 +85,11 @@ func WorkInt(w consensus.Work) *big.Int {
 
 // GenOpts controls tree generation.
 type GenOpts struct {
-	Blocks      int     // honestly mined blocks
-	Branchiness int     // 1 in Branchiness blocks starts a new branch off an older node
-	TxPerBlock  int     // attempted transactions per block (kinds picked at random)
+	Blocks      int      // honestly mined blocks
+	Branchiness int      // 1 in Branchiness blocks starts a new branch off an older node
+	TxPerBlock  int      // attempted transactions per block (kinds picked at random)
 	Kinds       []string // allowed kinds (nil = all)
-	Corruptions int     // number of corrupted blocks to add
+	Corruptions int      // number of corrupted blocks to add
 }
 
 // Gen generates a fork tree.
@@ -97,7 +98,7 @@ func Gen(r *rng.R, env *Env, o GenOpts) *Tree {
 	_ = gcs
 	t := &Tree{Env: env, ByID: map[types.BlockID]*Node{}}
 	_, cm := env.NewManager()
-	g := &Node{Idx: 0, Block: env.Genesis, ID: env.Genesis.ID(), HdrOK: true, BodyOK: true, State: cm.TipState()}
+	g := &Node{Idx: 0, Block: env.Genesis, ID: env.Genesis.ID(), HdrOK: true, BodyOK: true, State: cm.TipState(), FullState: cm.TipState()}
 	t.add(g)
 	builders := map[*Node]*Builder{}
 	kinds := o.Kinds
@@ -123,9 +124,12 @@ func Gen(r *rng.R, env *Env, o GenOpts) *Tree {
 			b.AddTx(r, kinds[r.Intn(len(kinds))])
 		}
 		blk, ks := b.Mine(r)
+		if _, dup := t.ByID[blk.ID()]; dup {
+			panic("chaingen: duplicate block id")
+		}
 		n := &Node{Block: blk, ID: blk.ID(), Parent: parent, Height: parent.Height + 1, Kinds: ks, HdrOK: true, BodyOK: true}
 		cs, _ := b.CM.State(n.ID)
-		n.State = cs
+		n.State, n.FullState = cs, cs
 		t.add(n)
 		builders[n] = b
 	}
@@ -298,6 +302,9 @@ func (t *Tree) label(n *Node) {
 	}
 	if cs, ok := cm.State(n.ID); ok {
 		n.State = cs
+		if n.BodyOK {
+			n.FullState = cs
+		}
 	} else {
 		// header-derived state: apply the header
 		n.State = pcs
